@@ -49,7 +49,7 @@ def some_missing(path_objs):
     return any(not fs_exists(p) for p in path_objs)
 
 
-@contract(U + "validate_paths_exist", props=["C06"], types=dict(path_objs=Paths, path=PathT),
+@contract(U + "validate_paths_exist", no_selftest=True, props=["C06"], types=dict(path_objs=Paths, path=PathT),
           raises=["SystemExit"], modifies=["stderr"], exc=Int)
 class ValidatePathsExist:
     def raises_when(path_objs):
@@ -68,7 +68,7 @@ def config_doc_ok(config_file):
     return isinstance(yaml_doc(file_of(path_of_str(config_file))), dict) or yaml_doc(file_of(path_of_str(config_file))) is None
 
 
-@contract(U + "load_config_file", props=["C06", "C05"],
+@contract(U + "load_config_file", no_selftest=True, props=["C06", "C05"],
           types=dict(orchestrator=OrchInitT, config_file=Str, verbose=Bool, config_path=PathT),
           raises=["SystemExit", "ConfigParseError", "OSError"], modifies=["orchestrator.config", "stderr"], exc=Int)
 class LoadConfigFile:
@@ -91,7 +91,7 @@ class GetOrDetectProjectRoot:
         return implies(project_root is not None, result == project_root)
 
 
-@contract(U + "setup_base_orchestrator", props=["C06", "C05"],
+@contract(U + "setup_base_orchestrator", no_selftest=True, props=["C06", "C05"],
           types=dict(path_objs=Paths, config_file=Opt(Str), verbose=Bool, project_root=Opt(PathT), root=PathT,
                      orchestrator=OrchInitT),
           returns=OrchInitT, raises=["SystemExit", "Exception"], modifies=["stderr"], exc=Int)
@@ -116,14 +116,14 @@ def dirs_of(path_objs):
     return [p for p in path_objs if fs_is_dir(p)]
 
 
-@contract(U + "separate_files_and_dirs", props=["C06", "C10", "C14"], types=dict(path_objs=Paths),
+@contract(U + "separate_files_and_dirs", no_selftest=True, props=["C06", "C10", "C14"], types=dict(path_objs=Paths),
           returns=TupleOf(Paths, Paths))
 class SeparateFilesAndDirs:
     def value(path_objs):
         return (files_of(path_objs), dirs_of(path_objs))
 
 
-@contract(U + "execute_linting_on_paths", props=["C06", "C10", "C14", "C07"],
+@contract(U + "execute_linting_on_paths", no_selftest=True, props=["C06", "C10", "C14", "C07"],
           types=dict(orchestrator=OrchInitT, path_objs=Paths, recursive=Bool, parallel=Bool, files=Paths, dirs=Paths,
                      violations=Viols, dir_path=PathT),
           returns=Viols, raises=["ValueError", "OSError"],
@@ -202,7 +202,7 @@ def exits_like_the_rendered_list(L, fmt, exc, exc_class, stdout, old):
         or (exc_class != "SystemExit" and stdout == old.stdout)
 
 
-@contract(CS + "_execute_magic_numbers_lint", props=["C06"],
+@contract(CS + "_execute_magic_numbers_lint", no_selftest=True, props=["C06"],
           types=dict(params=ExecT, orchestrator=OrchInitT, magic_numbers_violations=Violations, all_violations=Viols),
           raises=["SystemExit", "Exception"], modifies=["stdout", "stderr"], exc=Int,
           inline=["_setup_magic_numbers_orchestrator", "_run_magic_numbers_lint"])
@@ -218,7 +218,7 @@ class ExecuteMagicNumbersLint:
 
 
 # ---- perf: shared setup helper, extra --rule filter
-@contract(PF + "_execute_perf_lint", props=["C06"],
+@contract(PF + "_execute_perf_lint", no_selftest=True, props=["C06"],
           types=dict(params=ExecT, rule=Opt(Str), orchestrator=OrchInitT, violations=Violations, all_violations=Viols,
                      perf_violations=Viols),
           raises=["SystemExit", "Exception"], modifies=["stdout", "stderr"], exc=Int,
@@ -275,7 +275,7 @@ class ParseJsonRules:
         return json_value(rules)
 
 
-@contract(ST + "_setup_orchestrator", props=["C06"],
+@contract(ST + "_setup_orchestrator", no_selftest=True, props=["C06"],
           types=dict(path_objs=Paths, config_file=Opt(Str), rules=Opt(Str), verbose=Bool, project_root=Opt(PathT),
                      orchestrator=OrchInitT, rules_config=Any),
           returns=OrchInitT, raises=["SystemExit", "Exception"], modifies=["stderr"], exc=Int,
@@ -291,7 +291,7 @@ class SetupFilePlacementOrchestrator:
                                      or (config_file is not None and not fs_exists(path_of_str(config_file)))))
 
 
-@contract(ST + "_execute_file_placement_lint", props=["C06"],
+@contract(ST + "_execute_file_placement_lint", no_selftest=True, props=["C06"],
           types=dict(path_objs=Paths, config_file=Opt(Str), rules=Opt(Str), format=Str, recursive=Bool, parallel=Bool,
                      verbose=Bool, project_root=Opt(PathT), orchestrator=OrchInitT, all_violations=Viols,
                      violations=Violations),
@@ -308,7 +308,7 @@ class ExecuteFilePlacementLint:
 
 
 # ---- pipeline: custom option applied to the configuration before linting
-@contract(ST + "_apply_pipeline_config_override", props=["C06", "C05"],
+@contract(ST + "_apply_pipeline_config_override", no_selftest=True, props=["C06", "C05"],
           types=dict(orchestrator=OrchInitT, min_continues=Opt(Int), verbose=Bool, pipeline_config=Any),
           raises=["TypeError"], modifies=["orchestrator.config"])
 class ApplyPipelineConfigOverride:
@@ -316,7 +316,7 @@ class ApplyPipelineConfigOverride:
         return implies(min_continues is None, orchestrator.config == old.orchestrator.config)
 
 
-@contract(ST + "_execute_pipeline_lint", props=["C06"],
+@contract(ST + "_execute_pipeline_lint", no_selftest=True, props=["C06"],
           types=dict(path_objs=Paths, config_file=Opt(Str), format=Str, min_continues=Opt(Int), recursive=Bool,
                      parallel=Bool, verbose=Bool, project_root=Opt(PathT), orchestrator=OrchInitT, all_violations=Viols,
                      pipeline_violations=Violations),
@@ -340,7 +340,7 @@ DOC = "src/cli/linters/documentation.py::"
 RS = "src/cli/linters/rust.py::"
 
 
-@contract(CP + "_execute_improper_logging_lint", props=["C06"],
+@contract(CP + "_execute_improper_logging_lint", no_selftest=True, props=["C06"],
           types=dict(params=ExecT, orchestrator=OrchInitT, improper_logging_violations=Violations, all_violations=Viols),
           raises=["SystemExit", "Exception"], modifies=["stdout", "stderr"], exc=Int,
           inline=["_setup_improper_logging_orchestrator", "_run_improper_logging_lint"])
@@ -355,7 +355,7 @@ class ExecuteImproperLoggingLint:
         return exits_like_the_rendered_list(improper_logging_violations, params.format, exc, exc_class, stdout, old)
 
 
-@contract(CP + "_execute_method_property_lint", props=["C06"],
+@contract(CP + "_execute_method_property_lint", no_selftest=True, props=["C06"],
           types=dict(params=ExecT, orchestrator=OrchInitT, method_property_violations=Violations, all_violations=Viols),
           raises=["SystemExit", "Exception"], modifies=["stdout", "stderr"], exc=Int,
           inline=["_setup_method_property_orchestrator", "_run_method_property_lint"])
@@ -370,7 +370,7 @@ class ExecuteMethodPropertyLint:
         return exits_like_the_rendered_list(method_property_violations, params.format, exc, exc_class, stdout, old)
 
 
-@contract(CP + "_execute_stateless_class_lint", props=["C06"],
+@contract(CP + "_execute_stateless_class_lint", no_selftest=True, props=["C06"],
           types=dict(params=ExecT, orchestrator=OrchInitT, stateless_class_violations=Violations, all_violations=Viols),
           raises=["SystemExit", "Exception"], modifies=["stdout", "stderr"], exc=Int,
           inline=["_setup_stateless_class_orchestrator", "_run_stateless_class_lint"])
@@ -385,7 +385,7 @@ class ExecuteStatelessClassLint:
         return exits_like_the_rendered_list(stateless_class_violations, params.format, exc, exc_class, stdout, old)
 
 
-@contract(CP + "_execute_lazy_ignores_lint", props=["C06"],
+@contract(CP + "_execute_lazy_ignores_lint", no_selftest=True, props=["C06"],
           types=dict(params=ExecT, orchestrator=OrchInitT, lazy_ignores_violations=Violations, all_violations=Viols),
           raises=["SystemExit", "Exception"], modifies=["stdout", "stderr"], exc=Int,
           inline=["_setup_lazy_ignores_orchestrator", "_run_lazy_ignores_lint"])
@@ -400,7 +400,7 @@ class ExecuteLazyIgnoresLint:
         return exits_like_the_rendered_list(lazy_ignores_violations, params.format, exc, exc_class, stdout, old)
 
 
-@contract(CP + "_execute_lbyl_lint", props=["C06"],
+@contract(CP + "_execute_lbyl_lint", no_selftest=True, props=["C06"],
           types=dict(params=ExecT, orchestrator=OrchInitT, lbyl_violations=Violations, all_violations=Viols),
           raises=["SystemExit", "Exception"], modifies=["stdout", "stderr"], exc=Int,
           inline=["_setup_lbyl_orchestrator", "_run_lbyl_lint"])
@@ -415,7 +415,7 @@ class ExecuteLbylLint:
         return exits_like_the_rendered_list(lbyl_violations, params.format, exc, exc_class, stdout, old)
 
 
-@contract(CS + "_execute_stringly_typed_lint", props=["C06"],
+@contract(CS + "_execute_stringly_typed_lint", no_selftest=True, props=["C06"],
           types=dict(params=ExecT, orchestrator=OrchInitT, stringly_violations=Violations, all_violations=Viols),
           raises=["SystemExit", "Exception"], modifies=["stdout", "stderr"], exc=Int,
           inline=["_setup_stringly_typed_orchestrator", "_run_stringly_typed_lint"])
@@ -430,7 +430,7 @@ class ExecuteStringlyTypedLint:
         return exits_like_the_rendered_list(stringly_violations, params.format, exc, exc_class, stdout, old)
 
 
-@contract(DOC + "_execute_file_header_lint", props=["C06"],
+@contract(DOC + "_execute_file_header_lint", no_selftest=True, props=["C06"],
           types=dict(params=ExecT, orchestrator=OrchInitT, file_header_violations=Violations, all_violations=Viols),
           raises=["SystemExit", "Exception"], modifies=["stdout", "stderr"], exc=Int,
           inline=["_setup_file_header_orchestrator", "_run_file_header_lint"])
@@ -445,7 +445,7 @@ class ExecuteFileHeaderLint:
         return exits_like_the_rendered_list(file_header_violations, params.format, exc, exc_class, stdout, old)
 
 
-@contract(RS + "_execute_unwrap_abuse_lint", props=["C06"],
+@contract(RS + "_execute_unwrap_abuse_lint", no_selftest=True, props=["C06"],
           types=dict(params=ExecT, orchestrator=OrchInitT, unwrap_abuse_violations=Violations, all_violations=Viols),
           raises=["SystemExit", "Exception"], modifies=["stdout", "stderr"], exc=Int,
           inline=["_setup_unwrap_abuse_orchestrator", "_run_unwrap_abuse_lint"])
@@ -460,7 +460,7 @@ class ExecuteUnwrapAbuseLint:
         return exits_like_the_rendered_list(unwrap_abuse_violations, params.format, exc, exc_class, stdout, old)
 
 
-@contract(RS + "_execute_clone_abuse_lint", props=["C06"],
+@contract(RS + "_execute_clone_abuse_lint", no_selftest=True, props=["C06"],
           types=dict(params=ExecT, orchestrator=OrchInitT, clone_abuse_violations=Violations, all_violations=Viols),
           raises=["SystemExit", "Exception"], modifies=["stdout", "stderr"], exc=Int,
           inline=["_setup_clone_abuse_orchestrator", "_run_clone_abuse_lint"])
@@ -475,7 +475,7 @@ class ExecuteCloneAbuseLint:
         return exits_like_the_rendered_list(clone_abuse_violations, params.format, exc, exc_class, stdout, old)
 
 
-@contract(RS + "_execute_blocking_async_lint", props=["C06"],
+@contract(RS + "_execute_blocking_async_lint", no_selftest=True, props=["C06"],
           types=dict(params=ExecT, orchestrator=OrchInitT, blocking_async_violations=Violations, all_violations=Viols),
           raises=["SystemExit", "Exception"], modifies=["stdout", "stderr"], exc=Int,
           inline=["_setup_blocking_async_orchestrator", "_run_blocking_async_lint"])
@@ -490,7 +490,7 @@ class ExecuteBlockingAsyncLint:
         return exits_like_the_rendered_list(blocking_async_violations, params.format, exc, exc_class, stdout, old)
 
 
-@contract(PF + "_execute_string_concat_lint", props=["C06"],
+@contract(PF + "_execute_string_concat_lint", no_selftest=True, props=["C06"],
           types=dict(params=ExecT, orchestrator=OrchInitT, violations=Violations, all_violations=Viols),
           raises=["SystemExit", "Exception"], modifies=["stdout", "stderr"], exc=Int,
           inline=["_setup_and_validate", "_setup_performance_orchestrator", "_run_string_concat_lint"])
@@ -505,7 +505,7 @@ class ExecuteStringConcatLint:
         return exits_like_the_rendered_list(violations, params.format, exc, exc_class, stdout, old)
 
 
-@contract(PF + "_execute_regex_in_loop_lint", props=["C06"],
+@contract(PF + "_execute_regex_in_loop_lint", no_selftest=True, props=["C06"],
           types=dict(params=ExecT, orchestrator=OrchInitT, violations=Violations, all_violations=Viols),
           raises=["SystemExit", "Exception"], modifies=["stdout", "stderr"], exc=Int,
           inline=["_setup_and_validate", "_setup_performance_orchestrator", "_run_regex_in_loop_lint"])
@@ -671,3 +671,12 @@ def c06_command_shape(ctx):
     obs.append({"name": "c06-command-shape/every-executor-has-a-command", "kind": "shape", "solver": "ast", "ms": 0.0,
                 "verdict": "discharged" if not orphans else "refuted", "note": f"unreachable executors: {orphans}" if orphans else ""})
     return obs
+
+
+# ---- native generators for the CPython cross-check (pyvc/selftest.py)
+def _register_generators():
+    from pyvc import selftest
+    selftest.OPAQUE_GENERATORS.setdefault("Exception", lambda g: ValueError(g.s()))
+
+
+_register_generators()
